@@ -188,3 +188,63 @@ Proof.
     eapply Permutation_Forall; [apply Permutation_sym; exact PT|].
     rewrite <- (rows_of_of_rows R Hok). eapply rows_of_nodup; eassumption.
 Qed.
+
+(* ================================================================ subset_csc_h5ad_columns *)
+Lemma subset_columns_of_rows R chosen :
+  Forall row_ok R -> Forall (fun c => c < length R) chosen ->
+  subset_columns (of_rows R) chosen =
+  Ok (of_rows (map (fun c => nth c R rnil) (sort_by (fun x => x) chosen))).
+Proof.
+  intros Hok HF. unfold subset_columns.
+  set (cs := sort_by (fun x => x) chosen).
+  assert (HFc : Forall (fun c => c < length R) cs).
+  { eapply Permutation_Forall; [apply Permutation_sym, sort_by_perm | exact HF]. }
+  rewrite spans_from_rows by exact HFc. cbn [bind].
+  rewrite copy_rows_rows by assumption. cbn [bind fst snd].
+  set (T := map (fun c => nth c R rnil) cs).
+  unfold of_rows. f_equal. f_equal.
+  rewrite concat_rows_length.
+  pose proof (psums_removelast_last 0 (map rlen T)) as E. cbn [Nat.add] in E. exact E.
+Qed.
+
+(* the major slices of a CSC matrix are its columns: wf_csr m n_cols n_rows *)
+Theorem subset_columns_exact m n_cols n_rows chosen :
+  wf_csr m n_cols n_rows -> Forall (fun c => c < n_cols) chosen ->
+  let cs := sort_by (fun x => x) chosen in
+  let k := length chosen in
+  Sorted le cs /\ Permutation cs chosen /\
+  exists out, subset_columns m chosen = Ok out /\
+    wf_csr out k n_rows /\
+    (forall i, i < k -> row_entries out i = row_entries m (nth i cs 0)) /\
+    (forall i r, i < k -> cell out i r = cell m (nth i cs 0) r) /\
+    dense_of out k n_rows = map (fun c => nth c (dense_of m n_cols n_rows) []) cs /\
+    (no_dup_minor m -> no_dup_minor out).
+Proof.
+  intros W HF. cbn zeta.
+  set (cs := sort_by (fun x => x) chosen).
+  assert (Pcs : Permutation cs chosen) by apply sort_by_perm.
+  assert (Lcs : length cs = length chosen) by apply sort_by_length.
+  split. { pose proof (sort_by_sorted (fun x : nat => x) chosen) as HS. rewrite map_id in HS. exact HS. }
+  split; [exact Pcs|].
+  destruct (rows_view0 m n_cols n_rows W) as (R & Em & LR & Hok & Hc).
+  subst m. rewrite <- LR in HF.
+  assert (HFc : Forall (fun c => c < length R) cs).
+  { eapply Permutation_Forall; [apply Permutation_sym; exact Pcs | exact HF]. }
+  set (T := map (fun c => nth c R rnil) cs).
+  assert (LT : length T = length chosen) by (unfold T; rewrite map_length; exact Lcs).
+  assert (HokT : Forall row_ok T) by (apply Forall_pick; assumption).
+  assert (HcT : Forall (cols_ok n_rows) T) by (apply Forall_pick; assumption).
+  assert (Wo : wf_csr (of_rows T) (length chosen) n_rows) by (rewrite <- LT; apply of_rows_wf; assumption).
+  assert (HE : forall i, i < length chosen -> row_entries (of_rows T) i = row_entries (of_rows R) (nth i cs 0)).
+  { intros i Hi. rewrite row_entries_of_rows by (assumption || lia).
+    rewrite row_entries_of_rows; [| exact Hok | rewrite Forall_forall in HFc; apply HFc; apply nth_In; lia].
+    unfold T. apply (nth_map_lt (fun c => nth c R rnil) cs i 0). lia. }
+  exists (of_rows T). split; [apply subset_columns_of_rows; assumption|].
+  split; [exact Wo|]. split; [exact HE|].
+  rewrite LR in HFc.
+  destruct (dense_of_pick (of_rows T) (of_rows R) (length chosen) n_cols n_rows cs Wo W Lcs HFc HE) as [C1 C2].
+  split; [exact C1|]. split; [exact C2|].
+  intros ND. apply (of_rows_no_dup T n_rows HokT HcT).
+  unfold T. apply Forall_pick; [|rewrite LR; exact HFc].
+  rewrite <- (rows_of_of_rows R Hok). eapply rows_of_nodup; eassumption.
+Qed.
